@@ -136,3 +136,42 @@ def search(rep: C.Report, tier: str, broken):
                 if not abs(kap - mine) <= 1e-2 * max(abs(kap), abs(mine)) + 1e-6:
                     rep.violation("efficiency factor differs from the kinetic-energy integral of the flow profile", info,
                                   finding_key=f"C03:kappa:{branch}")
+    # ---- a scan over equations of state at ONE nucleation temperature and ONE fixed velocity grid, a fresh Hydrodynamics object per EOS (what a
+    # parameter scan does): every answer must be the one of ITS equation of state, whatever was computed before in the same process
+    import models
+    from WallGo.hydrodynamics import Hydrodynamics as _H
+    # (p+ < p- at Tn = 1 for all of them; the sound speed in FRONT of the wall differs from one to the next)
+    scan = [dict(ap=3.0, am=2.4, eps=0.25), dict(ap=3.0, am=2.0, eps=0.5, mu=4.2, nu=3.7), dict(ap=3.0, am=2.7, eps=0.15, mu=3.9, nu=4.3),
+            dict(ap=3.0, am=2.85, eps=0.08), dict(ap=4.0, am=3.0, eps=0.45, mu=4.4, nu=4.0)]
+    if tier == "thorough":
+        scan += [dict(ap=3.0, am=r.uniform(1.9, 2.6), eps=r.uniform(0.3, 0.5), mu=r.uniform(3.8, 4.4), nu=r.uniform(3.8, 4.4)) for _ in range(6)]
+    for par in scan:
+        e = models.BagEOS(Tn=1.0, **par)
+        if e.pHighT(1.0) >= e.pLowT(1.0):
+            continue
+        try:
+            h = _H(e, 10.0, 0.01, 1e-6, 1e-10)
+        except Exception:  # noqa: BLE001
+            continue
+        for vw in (0.3, 0.45, 0.6):
+            if not (h.vMin < vw < h.vJ):
+                continue
+            try:
+                vp, vm, Tp, Tm = map(float, h.findMatching(vw))
+            except Exception:  # noqa: BLE001
+                continue
+            xs, vs, Ts, K = integrate_shock(e, vw, vp, Tp)
+            u = mu_(xs, vs)
+            tgt = float(e.wHighT(Ts)) * HC.gsq(u) * u
+            try:
+                tn = brentq(lambda t: float(e.wHighT(t)) * HC.gsq(xs) * xs - tgt, 0.2, Ts * (1 + 1e-9), xtol=1e-14, rtol=1e-13)
+            except ValueError:
+                tn = math.nan
+            rep.case(key=("eos-scan-same-Tn", str(sorted(par.items())), vw))
+            rep.count("EOS scan at one Tn and one velocity grid")
+            if not abs(tn - 1.0) <= 2e-4:
+                rep.violation("in a scan over equations of state at one nucleation temperature (fresh Hydrodynamics per EOS, same wall velocities) the matched "
+                              "flow of a later EOS does not arrive at the nucleation temperature",
+                              {"eos": par, "Tn": 1.0, "vw": vw, "vp": vp, "vm": vm, "Tp": Tp, "Tm": Tm, "Tn_reached": tn,
+                               "earlier_in_this_process": "the preceding entries of the scan list, same vw grid (0.3, 0.45, 0.6)"},
+                              finding_key="C03:eos-scan-history")
